@@ -27,9 +27,11 @@ CONSTANTS
   RichOnly = FALSE
   NeedStruct = TRUE
   MaxRich <- Unlimited
+  NBrkPlaces = 7
+  SplitUnits = FALSE
   NCmtCls = 2
   NCppForms = 2
-  NGarb = 8
+  NGarb = 10
   DirectiveCls <- DirCls
 INVARIANT WellNested
 INVARIANT GrammarInNest
